@@ -616,6 +616,7 @@ def run(report, p):
     include_rules(report, p, 'c04', ['R4.1'], "create's verdict per file is the session's action decision")
     include_rules(report, p, 'c12', ['R12.1', 'R12.7'], 'ignored paths must never be reported')
     include_rules(report, p, 'c12', ['R12.5', 'R12.6'], 'gitwildmatch patterns are order-sensitive (negation): the stored list must come back in the order given, or a recorded file becomes ignored and its alteration unreported')
+    include_rules(report, p, 'c10', ['R10.3'], 'the recorded path must be the name on disk, or an unchanged tree is reported as missing + new')
     include_rules(report, p, 'c08', ['R8.7'], 'a removed nested history folder is only noticed if the parent recorded its directory entry (with or without directory hashes)')
     report.not_decided += ["verdicts for concrete trees and mutations", "that the digest comparison detects every alteration (collision resistance)", "the wording of the output lines"]
 
